@@ -167,7 +167,7 @@ def dead_branch_contracts():
     c.forall_const("M", "kind")
     c.req("hist_len(context) >= 1 and hist_name(context, hist_len(context) - 1) in self.depends_on")
     c.ens("emitted_total(M) == old(emitted_total(M))", "silent")
-    c.ens("result == (False, 0)", "result")
+    # (what a Check returns is ignored by Registry.run_rules: no clause on the result)
 
     def scope_ty(E, st, name, frame):
         return T.make_scope(E, st, name)
